@@ -64,7 +64,7 @@ PROPS = {
     },
     "C04": {
         "modules": ["PgBifrost.Props.C04"],
-        "components": ["batcher", "batch", "filter", "partitioner", "marshal", "pipeline", "syscorr", "parser"],
+        "components": ["batcher", "batch", "filter", "partitioner", "marshal", "pipeline", "syscorr", "parser", "e2e"],
         # the record must carry the rendering of exactly the change PostgreSQL sent: a decoder (C09) or a renderer (C10)
         # that alters or aliases the content breaks C04 as well
         "counts_from": {"C09": ".", "C10": "."},
